@@ -58,6 +58,10 @@ def gen(ctx):
                                    mode=r.choice(['r+', 'r+', 'r']),
                                    metadata=r.choice([None, None, {'a': 1}])))
     cases += raglib.trailing_empty_cases(r)
+    # every fourth history runs with both subarrays held open in an open_arrays() context: same outcomes
+    for i, c in enumerate(cases):
+        if i % 4 == 3 and not any(o['op'] == 'delete' for o in c['ops']):
+            c['heldopen'] = True
     return cases
 
 
